@@ -345,7 +345,7 @@ func permutations(n int) [][]int {
 
 func c11Run(c *mc.Ctx) {
 	th := c.Thorough()
-	strs := []string{"", "a", string(nonUTF8S), string(c01Str(4097))}
+	strs := []string{"", "a", string(nonUTF8S), string(c01Str(4097)), "hé服😀"}
 	ints := []int32{0, 1, -1, -2147483648, 2147483647, 0x01020304}
 	extras := []c11Val{{}, {HasMap: true}, {HasMap: true, Extra: map[string]string{"k": "v"}}, {HasMap: true, Extra: map[string]string{"k1": "v1", "k2": string(nonUTF8S)}}, {HasMap: true, Extra: map[string]string{"": ""}}}
 	// ---- write side ----
